@@ -203,6 +203,16 @@ def run_real(lentil, case, plane_hook=None):
                 kw = {}
                 if st['mask']['k'] != 'none':
                     kw['mask'] = np.array(st['mask']['m'])
+                    # the mask's VALUES are free (antialiased, weighted, boolean, nested lists): only its support counts
+                    form = st.get('mask_form', 'int')
+                    if form == 'half':
+                        kw['mask'] = kw['mask'] * 0.5
+                    elif form == 'quarter-float32':
+                        kw['mask'] = (kw['mask'] * 0.25).astype(np.float32)
+                    elif form == 'bool':
+                        kw['mask'] = kw['mask'].astype(bool)
+                    elif form == 'list':
+                        kw['mask'] = kw['mask'].tolist()
                 sh = tuple(st['shape'])
                 psh = tuple(st['pshape'])
                 w = lentil.propagate_dft(w, pixelscale=du if du[0] != du[1] or st.get('du_tuple') else du[0],
